@@ -77,11 +77,25 @@ fn pair_list(n: usize) -> Vec<(usize, usize)> {
 /// For two disjoint non-empty sets A, B: value = (sum of I over A x B) / (|A||B|) / 2^(m+6),
 /// computed exactly in integers, divided in f64 and rounded once to f32 (size-weighted mean of
 /// the base distances between members). Symmetric by construction.
+/// In the family "one infinite distance" the pair of the largest rank is at +inf instead; a set pair
+/// whose members include that pair is at +inf as well (the mean of values one of which is +inf).
+/// `fixed` (n = 2 only) overrides the single base distance with an explicit f32 value.
 struct Table {
     n: usize,
     m: usize,
     ival: [[u64; MAX_N]; MAX_N],
+    inf: [[bool; MAX_N]; MAX_N],
+    fixed: Option<f32>,
     scale: f64,
+}
+
+/// JSON rendering of a distance (serde_json would turn a non-finite number into null).
+fn fj(v: f32) -> Value {
+    if v.is_finite() {
+        json!(v)
+    } else {
+        json!(format!("{v}"))
+    }
 }
 
 /// How a rank is turned into a base distance. Only `average` and `union` can tell the families
@@ -95,6 +109,8 @@ enum Family {
     Linear,
     /// 3^r / 2^16: the largest member dominates every mean
     Geometric,
+    /// as Spread, but the pair of the largest rank is at f32::INFINITY (a legal distance, e.g. -ln 0)
+    InfTop,
 }
 
 impl Family {
@@ -103,11 +119,12 @@ impl Family {
             Family::Spread => "spread",
             Family::Linear => "linear",
             Family::Geometric => "geometric",
+            Family::InfTop => "one-infinite",
         }
     }
     fn scale(self, m: usize) -> f64 {
         match self {
-            Family::Spread => (1u64 << (m + 6)) as f64,
+            Family::Spread | Family::InfTop => (1u64 << (m + 6)) as f64,
             Family::Linear => 64.0,
             Family::Geometric => 65536.0,
         }
@@ -116,7 +133,7 @@ impl Family {
 
 fn base_int(fam: Family, rank: usize, m: usize) -> u64 {
     match fam {
-        Family::Spread => (((rank as u64) + 1) << m) | (1u64 << rank),
+        Family::Spread | Family::InfTop => (((rank as u64) + 1) << m) | (1u64 << rank),
         Family::Linear => rank as u64 + 1,
         Family::Geometric => 3u64.pow(rank as u32),
     }
@@ -128,23 +145,40 @@ impl Table {
         let m = n_pairs(n);
         assert_eq!(rank_of_pair.len(), m);
         let mut ival = [[0u64; MAX_N]; MAX_N];
+        let mut inf = [[false; MAX_N]; MAX_N];
         let mut p = 0;
         for i in 0..n {
             for j in i + 1..n {
                 let v = base_int(fam, rank_of_pair[p], m);
                 ival[i][j] = v;
                 ival[j][i] = v;
+                if fam == Family::InfTop && rank_of_pair[p] + 1 == m {
+                    inf[i][j] = true;
+                    inf[j][i] = true;
+                }
                 p += 1;
             }
         }
-        Table { n, m, ival, scale: fam.scale(m) }
+        Table { n, m, ival, inf, fixed: None, scale: fam.scale(m) }
+    }
+
+    /// n = 2 with the explicit distance `v` between the two inputs.
+    fn fixed2(v: f32) -> Table {
+        assert!(!v.is_nan(), "C17 harness: NaN is not a distance");
+        let mut t = Table::new(2, &[0], Family::Spread);
+        t.fixed = Some(v);
+        t
     }
 
     /// Value for two disjoint non-empty masks.
     fn value(&self, a: u32, b: u32) -> f32 {
         debug_assert!(a != 0 && b != 0 && a & b == 0);
+        if let Some(v) = self.fixed {
+            return v;
+        }
         let mut sum = 0u64;
         let mut cnt = 0u64;
+        let mut infinite = false;
         for i in 0..self.n {
             if a >> i & 1 == 0 {
                 continue;
@@ -153,8 +187,12 @@ impl Table {
                 if b >> j & 1 == 1 {
                     sum += self.ival[i][j];
                     cnt += 1;
+                    infinite |= self.inf[i][j];
                 }
             }
+        }
+        if infinite {
+            return f32::INFINITY;
         }
         ((sum as f64) / (cnt as f64) / self.scale) as f32
     }
@@ -162,7 +200,7 @@ impl Table {
     fn base_json(&self) -> Value {
         let mut v = vec![];
         for (i, j) in pair_list(self.n) {
-            v.push(json!({"sets": [i, j], "terms": [FIRST + i as u32, FIRST + j as u32], "distance": self.value(1 << i, 1 << j)}));
+            v.push(json!({"sets": [i, j], "terms": [FIRST + i as u32, FIRST + j as u32], "distance": fj(self.value(1 << i, 1 << j))}));
         }
         json!(v)
     }
@@ -396,7 +434,7 @@ fn fail(site: &str, sig: &'static str, det: String) -> Option<Fail> {
 }
 
 fn fmt_merges(m: &[Merge]) -> Vec<Value> {
-    m.iter().map(|&(l, r, d, s)| json!({"lhs": l, "rhs": r, "distance": f32::from_bits(d), "len": s})).collect()
+    m.iter().map(|&(l, r, d, s)| json!({"lhs": l, "rhs": r, "distance": fj(f32::from_bits(d)), "len": s})).collect()
 }
 
 fn check(n: usize, method: Method, obs: &Obs, rf: &RefRun, rec: &Rec) -> Option<Fail> {
@@ -513,10 +551,16 @@ fn rust_snippet(f: &Facts, n: usize, method: Method, table: &Table) -> String {
     let rows: Vec<String> = (0..n).map(|i| format!("{:?}", &table.ival[i][..n])).collect();
     s.push_str(&format!("let ival: [[u64; {n}]; {n}] = [{}];\n", rows.join(", ")));
     s.push_str(&format!("let scale = {}f64;\n", table.scale));
+    let rows: Vec<String> = (0..n).map(|i| format!("{:?}", &table.inf[i][..n])).collect();
+    s.push_str(&format!("let inf: [[bool; {n}]; {n}] = [{}]; // pairs of inputs at distance +inf\n", rows.join(", ")));
     s.push_str("let dist = |c: Combinations<HpoSet<'_>>| -> Vec<f32> { c.map(|(a, b)| {\n");
     s.push_str(&format!("    let ia: Vec<usize> = a.iter().map(|t| (hpo::annotations::AnnotationId::as_u32(&t.id()) - {FIRST}) as usize).collect();\n"));
     s.push_str(&format!("    let ib: Vec<usize> = b.iter().map(|t| (hpo::annotations::AnnotationId::as_u32(&t.id()) - {FIRST}) as usize).collect();\n"));
     s.push_str("    if ia.iter().any(|i| ib.contains(i)) { return 0.0; } // the library also asks for a merged set against itself\n");
+    s.push_str("    if ia.iter().any(|i| ib.iter().any(|j| inf[*i][*j])) { return f32::INFINITY; }\n");
+    if let Some(v) = table.fixed {
+        s.push_str(&format!("    if true {{ return f32::from_bits({:#x}); }} // = {v:e}\n", v.to_bits()));
+    }
     s.push_str("    let mut sum = 0u64; for i in &ia { for j in &ib { sum += ival[*i][*j]; } }\n");
     s.push_str("    (sum as f64 / (ia.len() * ib.len()) as f64 / scale) as f32\n}).collect() };\n");
     s.push_str(&format!("let sets = (0..n).map(|i| {{ let mut g = HpoGroup::new(); g.insert({FIRST}u32 + i as u32); HpoSet::new(&ont, g) }});\n"));
@@ -551,7 +595,7 @@ fn one(ctx: &mut Ctx, env: &Env, n: usize, rank_of_pair: &[usize], table: &Table
     let rec = env.rec.borrow();
     // the context keeps the detail of the first occurrence of a (site, signature) only: build it only then
     let detail = |extra: Value| {
-        let exp: Vec<Value> = rf.merges.iter().map(|&(a, b, v, s)| json!({"pair": [a, b], "distance": v, "len": s})).collect();
+        let exp: Vec<Value> = rf.merges.iter().map(|&(a, b, v, s)| json!({"pair": [a, b], "distance": fj(v), "len": s})).collect();
         json!({
             "n": n, "method": method.name(), "rank_of_pair (pairs in order (0,1),(0,2),..)": rank_of_pair,
             "base_distances": table.base_json(),
@@ -624,7 +668,7 @@ fn flush(ctx: &mut Ctx, n: usize, fam: Family, orders: u64, tally: &Tally) {
     ctx.validateds(tally.exact);
     // constructor + cluster() + into_cluster() + indicies() + n-1 model merge steps
     ctx.transitions(tally.runs * (4 + n as u64 - 1));
-    if n >= 3 {
+    if n >= 3 || fam == Family::InfTop {
         ctx.nontrivials(tally.exact);
     }
     for &m in &METHODS {
@@ -705,7 +749,7 @@ fn exhaustive(ctx: &mut Ctx, env: &Env, n: usize, fam: Family, methods: &[Method
             let r = reference(n, methods[0], &t);
             json!({"n": n, "methods": methods.iter().map(|m| m.name()).collect::<Vec<_>>(), "rank_prefix": pre, "rank_orders_in_case": orders,
                 "last_rank_order": order, "its_base_distances": t.base_json(),
-                "its_reference_merges": r.merges.iter().map(|&(a, b, v, s)| json!([a, b, v, s])).collect::<Vec<_>>()})
+                "its_reference_merges": r.merges.iter().map(|&(a, b, v, s)| json!([a, b, fj(v), s])).collect::<Vec<_>>()})
         });
     }
 }
@@ -808,10 +852,10 @@ fn near_orders(ctx: &mut Ctx, env: &Env, n: usize, d: usize, methods: &[Method])
 }
 
 pub fn run(ctx: &mut Ctx) {
-    ctx.rule = "an input = (n singleton sets, a rank order of the n(n-1)/2 pairwise distances, a linkage method); the pair of rank r gets the dyadic base distance ((r+1)*2^m + 2^r)/2^(m+6) (m = number of pairs; spaces named linear-/geometric-values use (r+1)/64 resp. 3^r/2^16 instead); \
+    ctx.rule = "an input = (n singleton sets, a rank order of the n(n-1)/2 pairwise distances, a linkage method); the pair of rank r gets the dyadic base distance ((r+1)*2^m + 2^r)/2^(m+6) (m = number of pairs; spaces named linear-/geometric-values use (r+1)/64 resp. 3^r/2^16 instead; spaces named one-infinite-distance put the pair of the largest rank at f32::INFINITY; n2/explicit-distance-values uses the listed f32 values); \
         a case = a block of rank orders sharing a prefix (n <= 5) or one near-base rank order applied to three base orders (n = 6,7), each run under the listed methods; inputs are distinct by construction; \
-        states = rank orders, executions = clusterings, validated = clusterings compared merge by merge (pair, distance, len) with the reference without meeting a tie; non-trivial = validated and n >= 3 \
-        (at least one distance to a newly formed cluster decides or is reported by a later merge); extra.ties = clusterings where the reference met two live pairs at the same minimal distance (exact comparison stopped at that step, structural checks still applied)"
+        states = rank orders, executions = clusterings, validated = clusterings compared merge by merge (pair, distance, len) with the reference without meeting a tie; non-trivial = validated and (n >= 3 \
+        (at least one distance to a newly formed cluster decides or is reported by a later merge) or a border value (+inf, 0, f32::MAX, f32::MIN_POSITIVE) is among the distances); extra.ties = clusterings where the reference met two live pairs at the same minimal distance (exact comparison stopped at that step, structural checks still applied)"
         .into();
     ctx.assumptions = vec![
         "symmetric distance functions only: the callback is a pure function of the unordered content of the two sets".into(),
@@ -820,6 +864,7 @@ pub fn run(ctx: &mut Ctx) {
         "for `union` the user distance of (merged set, other live set) is the size-weighted mean of the base distances between members, computed by the same function in the callback and in the reference".into(),
         "only the FIRST callback invocation is subject to the accounting oracle; later invocations are recorded (union also asks for the merged set against itself - counted in extra, ignored by the library, not a violation)".into(),
         "(lhs, rhs) of a merge is compared as an unordered pair".into(),
+        "+inf, 0.0, f32::MAX and f32::MIN_POSITIVE are legal distances (e.g. -ln of a similarity of 0 is +inf); the merge at +inf must be reported at +inf; NaN and negative values are not used".into(),
         "n = 0 and n = 1 are don't-care: executed under catch_unwind, nothing is demanded".into(),
         "set content: singletons over a flat Builder ontology (root 1, children 2..=9, build_minimal); clustering never looks at the ontology structure itself".into(),
     ];
@@ -855,6 +900,36 @@ pub fn run(ctx: &mut Ctx) {
         let total: u64 = (1..=m as u64).product();
         ctx.space(&format!("n{n}/all-rank-orders/all-methods"), &format!("n = {n}: all {total} rank orders of the {m} pairwise distances x 4 methods"));
         exhaustive(ctx, &env, n, Family::Spread, &METHODS);
+    }
+
+    // ---- one infinite distance: the pair of the largest rank is at +inf, n = 2, 3, 4 (n = 5: thorough, below)
+    let infinite = |ctx: &mut Ctx, n: usize| {
+        let m = n_pairs(n);
+        let total: u64 = (1..=m as u64).product();
+        ctx.space(
+            &format!("n{n}/all-rank-orders/one-infinite-distance/all-methods"),
+            &format!("n = {n}: all {total} rank orders of the {m} pairwise distances, the pair of the largest rank at f32::INFINITY (a set pair containing it is at +inf too) x 4 methods"),
+        );
+        exhaustive(ctx, &env, n, Family::InfTop, &METHODS);
+    };
+    for n in 2..=4usize {
+        infinite(ctx, n);
+    }
+
+    // ---- n = 2 with explicit border values of the single distance
+    ctx.space("n2/explicit-distance-values/all-methods", "n = 2: the distance of the two inputs in {0.5, +inf, 0.0, f32::MAX, f32::MIN_POSITIVE} x 4 methods (NaN is not a distance and is left out)");
+    for v in [0.5f32, f32::INFINITY, 0.0, f32::MAX, f32::MIN_POSITIVE] {
+        if !ctx.take() {
+            continue;
+        }
+        let table = Table::fixed2(v);
+        let mut tally = Tally::default();
+        for &method in &METHODS {
+            one(ctx, &env, 2, &[0], &table, method, &mut tally);
+        }
+        flush(ctx, 2, Family::Spread, 1, &tally);
+        ctx.nontrivials(tally.exact); // a border value of the distance is what makes these cases interesting
+        ctx.sample(|| json!({"n": 2, "distance": fj(v), "distance_bits": format!("{:#x}", v.to_bits()), "methods": METHODS.iter().map(|m| m.name()).collect::<Vec<_>>()}));
     }
 
     // ---- n = 0, 1: don't-care, must merely not take the harness down
@@ -904,6 +979,7 @@ pub fn run(ctx: &mut Ctx) {
     }
     if thorough {
         families(ctx, 5);
+        infinite(ctx, 5);
     }
 
     // ---- n = 6, 7: Kendall-tau balls around three base orders
